@@ -193,6 +193,73 @@ func TestCheck(t *testing.T) {
 			}
 		}
 	}
+	// A database created from nothing: the first transaction commits or is rolled back (with the journal header
+	// carrying its magic at once under synchronous=OFF, and only after the first sync otherwise), before or after a
+	// spill; whatever happened, a second creating transaction then commits.
+	nCreate := 0
+	for _, ps := range pageSizes {
+		if ps > 4096 && ps != 65536 {
+			continue
+		}
+		for _, n := range []uint32{1, 2, 3, 257} {
+			for _, sync := range []int{0, 2} {
+				for _, fin := range []string{"DELETE", "TRUNCATE", "PERSIST"} {
+					for _, oc := range []string{"commit", "rollback"} {
+						t1 := pager.RTx{Create: true, NewSize: n, SyncMode: sync, Final: fin, Outcome: oc}
+						ops := []prog.Op{{Kind: "rtx", R: &t1}}
+						if oc == "rollback" {
+							t2 := pager.RTx{Create: true, NewSize: n + 1, SyncMode: sync, Final: fin, Outcome: "commit"}
+							ops = append(ops, prog.Op{Kind: "rtx", R: &t2})
+						} else {
+							t2 := pager.RTx{Mods: []uint32{n}, NewSize: n + 1, SyncMode: sync, Final: fin, Outcome: "commit"}
+							ops = append(ops, prog.Op{Kind: "rtx", R: &t2})
+						}
+						cases = append(cases, prog.Case{PageSize: ps, Start: 0, Ops: ops})
+						nCreate++
+					}
+				}
+			}
+		}
+	}
+	// A WAL database switched back to a rollback-journal mode (PRAGMA journal_mode=DELETE|TRUNCATE|PERSIST: the log is
+	// checkpointed and unlinked, then page 1 is rewritten through a rollback journal), followed by an ordinary
+	// rollback-journal transaction; before the switch the log is empty, holds one transaction, or has been checkpointed.
+	nLeave := 0
+	for _, ps := range pageSizes {
+		if ps > 4096 {
+			continue
+		}
+		for _, s := range []uint32{2, 3, 257} {
+			for _, fin := range []string{"DELETE", "TRUNCATE", "PERSIST"} {
+				for pre := 0; pre < 3; pre++ {
+					var ops []prog.Op
+					if pre >= 1 {
+						ops = append(ops, prog.Op{Kind: "wtx", W: &pager.WTx{Frames: []uint32{1, 2, s + 1}, Outcome: "commit"}})
+					}
+					if pre == 2 {
+						ops = append(ops, prog.Op{Kind: "ckpt", Mode: "TRUNCATE"})
+					}
+					t := pager.RTx{Mods: []uint32{2}, Final: fin, Outcome: "commit"}
+					ops = append(ops, prog.Op{Kind: "leave-wal", Mode: fin}, prog.Op{Kind: "rtx", R: &t})
+					cases = append(cases, prog.Case{PageSize: ps, Start: s, StartWAL: true, Ops: ops})
+					nLeave++
+				}
+			}
+		}
+	}
+
+	// Page content that looks like page 1's WAL marker (02 02 at offset 18) in other pages, followed by an ordinary transaction.
+	for _, ps := range pageSizes {
+		if ps > 4096 {
+			continue
+		}
+		for _, fin := range []string{"DELETE", "TRUNCATE", "PERSIST"} {
+			t1 := pager.RTx{Mods: []uint32{2, 3}, VersionBytes22: true, Final: fin, Outcome: "commit"}
+			t2 := pager.RTx{Mods: []uint32{2}, NewSize: 4, Final: fin, Outcome: "commit"}
+			cases = append(cases, prog.Case{PageSize: ps, Start: 3, Ops: []prog.Op{{Kind: "rtx", R: &t1}, {Kind: "rtx", R: &t2}}})
+		}
+	}
+
 	// LZ4 on: a slice of the single programs.
 	for i := 0; i < nSingles; i += 37 {
 		c := cases[i]
@@ -238,6 +305,8 @@ func TestCheck(t *testing.T) {
 		"single_transaction_programs":   nSingles,
 		"chains_of_2":                   nChains2,
 		"chains_of_3":                   nChains3,
+		"created_from_nothing_programs": nCreate,
+		"leave_wal_programs":            nLeave,
 		"file_operations_executed":      st.Steps,
 		"distinct_outcome_classes":      st.Classes.N(),
 		"outcome_classes":               st.Classes.Top(20),
